@@ -355,7 +355,9 @@ def run_check(check, tier, seed, repo=DEFAULT_REPO, workers=None, write_evidence
             r, v = seen_keys[key]
             kf = [k for k in known if k["key"] == key]
             if kf:
-                log("KNOWN-FINDING: property=%s key=%s %s" % (check.ID, key, kf[0]["what"] or v["detail"][:200]))
+                # the failing case is kept as a replay file (not minimised), so that the finding can be re-executed
+                kpath = write_replay(check, seed, tier, r, v, r["case"], False, env, binary_sha)
+                log("KNOWN-FINDING: property=%s key=%s %s (replay=%s)" % (check.ID, key, kf[0]["what"] or v["detail"][:200], kpath))
                 known_matched.append(key)
                 continue
             if len(reported) >= 8:
@@ -450,6 +452,10 @@ def replay_file(path, repo=DEFAULT_REPO, build=True):
     if v:
         log("reproduced: class=%s key=%s" % (v["cls"], v["key"]))
         log("  " + v["detail"][:3000].replace("\n", "\n  "))
+        kf = [k for k in load_known_findings() if k["property"] == doc["property"] and k["key"] == v["key"]]
+        if kf and all(o["key"] == v["key"] for o in res.get("violations", [])):
+            log("KNOWN-FINDING: property=%s key=%s %s" % (doc["property"], v["key"], kf[0]["what"]))
+            return EXIT_OK
         log("VIOLATION property=%s replay=%s" % (doc["property"], path))
         return EXIT_VIOLATION
     others = res.get("violations", [])
